@@ -32,7 +32,7 @@ func repoCorpus() [][]byte {
 	var out [][]byte
 	seen := map[string]bool{}
 	for _, d := range []string{"number", "dimension", "data-uri", "mediatype"} {
-		files, _ := filepath.Glob(repoRoot+"/tests/" + d + "/corpus/*")
+		files, _ := filepath.Glob(repoRoot + "/tests/" + d + "/corpus/*")
 		sort.Strings(files)
 		for _, f := range files {
 			data, err := os.ReadFile(f)
@@ -1347,8 +1347,8 @@ func c16HashOracle(r *Rng, tier string, rep *Report) {
 		text   []byte
 	}
 	tabs := []tab{
-		{"css", repoRoot+"/css/hash.go", func(b []byte) uint32 { return uint32(css.ToHash(b)) }, func(h uint32) []byte { return css.Hash(h).Bytes() }, func(h uint32) string { return css.Hash(h).String() }, css.VerifHashText()},
-		{"html", repoRoot+"/html/hash.go", func(b []byte) uint32 { return uint32(html.ToHash(b)) }, func(h uint32) []byte { return html.Hash(h).Bytes() }, func(h uint32) string { return html.Hash(h).String() }, html.VerifHashText()},
+		{"css", repoRoot + "/css/hash.go", func(b []byte) uint32 { return uint32(css.ToHash(b)) }, func(h uint32) []byte { return css.Hash(h).Bytes() }, func(h uint32) string { return css.Hash(h).String() }, css.VerifHashText()},
+		{"html", repoRoot + "/html/hash.go", func(b []byte) uint32 { return uint32(html.ToHash(b)) }, func(h uint32) []byte { return html.Hash(h).Bytes() }, func(h uint32) string { return html.Hash(h).String() }, html.VerifHashText()},
 	}
 	for _, t := range tabs {
 		cs, err := hashConsts(t.path)
